@@ -107,29 +107,6 @@ function errName(e, w) {
 
 async function settle() { for (let i = 0; i < 3; i++) await new Promise(r => setImmediate(r)); }
 
-// drive a declared wrapper function w (generator / async / plain) so that its body is executed
-async function driveW(w) {
-  let f;
-  try { f = vm.runInContext('typeof w === "function" ? w : undefined', w.ctx); } catch (e) { return; }
-  if (typeof f !== 'function') return;
-  let r;
-  try { r = f(); } catch (e) { w.log.push('throw ' + errName(e, w)); return; }
-  try {
-    if (r && typeof r.next === 'function') {
-      for (let i = 0; i < 8; i++) {
-        let s = r.next(w.mkProbe('sent' + i));
-        if (s && typeof s.then === 'function') s = await s;
-        w.push('yielded ' + w.repr(s.value) + ' done=' + s.done);
-        if (s.done) break;
-      }
-    } else if (r && typeof r.then === 'function') {
-      const v = await r; w.push('resolved ' + w.repr(v));
-    } else {
-      w.push('returned ' + w.repr(r));
-    }
-  } catch (e) { w.log.push('throw ' + errName(e, w)); }
-}
-
 async function runOne(item, valuation) {
   const w = makeWorld(item.names || [], valuation);
   const kind = item.kind || 'script';
@@ -159,7 +136,6 @@ async function runOne(item, valuation) {
         for (const k of Object.keys(ex).sort()) if (k !== '__esModule') w.log.push('export ' + k + ' = ' + w.repr(ex[k]));
       }
     }
-    await driveW(w);
   } catch (e) {
     w.log.push('throw ' + errName(e, w));
   }
